@@ -184,6 +184,13 @@ def histories(length, seed, sample):
             for p3 in ps:
                 for p4 in ps[:4]:
                     out.append([p1, ('W', 0, 0, 0), p2, p3, ('R', 0, 0, 0), p4])
+    # ... and two grammar versions taking turns on one file around a change of the file (an entry must never be
+    # filed under, or served to, the other version)
+    for ga in (0, 1):
+        gb = 1 - ga
+        for o1, o2, o3, o4 in itertools.product('CD', repeat=4):
+            out.append([(o1, 0, ga, 0), (o2, 0, gb, 0), ('W', 0, 0, 0), (o3, 0, ga, 0), (o4, 0, gb, 0)])
+            out.append([(o1, 0, ga, 0), (o2, 1, gb, 0), ('W', 0, 0, 0), (o3, 0, ga, 0), (o4, 0, gb, 0)])
     # histories without any parse are trivial
     return [h for h in out if any(a[0] in 'CDNZ' for a in h)], len(acts)
 
@@ -216,7 +223,8 @@ def main():
                scope=dict(max_length=a.length, actions=nacts, sample_per_length=a.sample, seed=a.seed),
                rule='every history of length <= L over %d actions (ops W T C D N R X Z x file x grammar version x cache '
                     'directory) while the number of histories of a length is <= %d, seeded samples of that size beyond; '
-                    'plus the 576 structured 6-step histories parse / write / parse / parse / restart / parse over (C D N) x (two cache directories); '
+                    'plus the 576 structured 6-step histories parse / write / parse / parse / restart / parse over (C D N) x (two cache directories) '
+                    'and 64 5-step histories in which two grammar versions take turns on a file around a change of it; '
                     'os.utime on a tracked file advances its logical mtime; histories without a parse are dropped; each history is run with the in-memory GC trigger at its default (600) '
                     'and at 1; all counted histories are distinct' % (nacts, a.sample),
                exhaustive=False)
